@@ -314,4 +314,10 @@ def r6(F, R):
 
 
 _LIB = ["default", "all", "nodefault"]
-RULES = [("R1", r1, _LIB), ("R2", r2, _LIB), ("R3", r3, _LIB), ("R4", r4, _LIB), ("R5", r5, _LIB), ("R6", r6, ["zoo:default"])]
+def r7_clone(F, R):
+    """Step collections, regex keys, locations and contexts are cloned per lookup: a clone keeps every field (= C19.R6 for the collection)."""
+    n = roles.check_clone_faithful_table(F, R, r"^step::", "clone-faithful")
+    R.floor(4)
+
+
+RULES = [("R1", r1, _LIB), ("R2", r2, _LIB), ("R3", r3, _LIB), ("R4", r4, _LIB), ("R5", r5, _LIB), ("R6", r6, ["zoo:default"]), ("R7", r7_clone, _LIB)]
